@@ -168,9 +168,11 @@ def _dump_ballots(votes: Dict[Tuple[Candidate, ...], Number],
         yield f'{prefix}={cand_nicks[cand]} {cand_names[cand]}'
     yield f'ballots={len(votes)}'
     for ranking, n_votes in votes.items():
-        # an empty ranking needs its multiplier: a blank line is not a ballot
-        multiplier = f'{n_votes}X ' if n_votes != 1 or not ranking else ''
-        yield multiplier + _ranking_to_str(ranking, cand_nicks)
+        # an empty ranking needs its multiplier: a blank line is not a ballot;
+        # neither is a line that reads as the terminator
+        ranking_str = _ranking_to_str(ranking, cand_nicks)
+        needs_multiplier = n_votes != 1 or not ranking or ranking_str == 'end'
+        yield (f'{n_votes}X ' if needs_multiplier else '') + ranking_str
     yield 'end'
 
 
